@@ -1,10 +1,12 @@
 (* Extraction of the executable part of the kernels engine (C13): name tables,
    Direction values, neighbour offsets, uniform bounds, mix decision, factory
-   choice.  The real-valued part (offsets, densities) is not executable and is
+   choice, SwitchDispersalKernel dispatch / eligibility / supports_kernel,
+   eligibility of the kernel classes and of the factory-built wrappers, the mix
+   over real kernels.  The real-valued part (offsets, densities) is not executable and is
    tied by the translator and the metamorphic runs.  ExtrOcamlBasic only. *)
 From Coq Require Import Extraction ExtrOcamlBasic.
 From Coq Require Import ZArith List String.
-From Pops Require Import Err KernelTypesDefs GeneratedKernelTables KernelGeomDefs.
+From Pops Require Import Err KernelTypesDefs GeneratedKernelTables KernelGeomDefs KernelSwitchDefs.
 Extraction Language OCaml.
 Extraction "popsmodel.ml"
   kernel_type_from_string kernel_type_index direction_from_string direction_value
@@ -13,5 +15,9 @@ Extraction "popsmodel.ml"
   uniform_result covers_landscape_b
   mix_choice_of mix_draws_bernoulli mix_kernel_stream mix_bernoulli_stream
   factory_natural factory_anthropogenic
+  switch_target switch_eligible switch_supports switch_default_stochasticity
+  class_eligible class_supports elig_eval class_call_throws
+  factory_natural_eligible factory_anthropogenic_eligible
+  mix_switch_choice mix_switch_draws mix_factory_choice mix_factory_draws
   (* conv.ml expects the datatype nat to exist *)
   List.length.
